@@ -107,8 +107,9 @@ theorem fosterLoop_sem : ∀ (l : List Id) (s s' : State) (ip : InsertionPoint),
 /-- the answer of `appropriate_place_for_insertion` for the target `t` -/
 inductive ARes (s : State) (t : Id) : InsertionPoint → Prop
   | plain : ARes s t (.lastChild t)
-  | tmpl (tc : Id) : s.dom.templateContentsOf t = some tc → ARes s t (.lastChild tc)
-  | foster (ip : InsertionPoint) : s.fosterParenting = true → FRes s s.openElems.reverse ip → ARes s t ip
+  | tmpl (tc : Id) : s.dom.templateContentsOf t = some tc → nm s.dom t = hN "template" → ARes s t (.lastChild tc)
+  | foster (ip : InsertionPoint) : s.fosterParenting = true → fosterTarget (nm s.dom t) = true →
+      FRes s s.openElems.reverse ip → ARes s t ip
 
 theorem tc_of_nodes {d d' : Dom} (h : d'.nodes = d.nodes) (x : Id) : d'.templateContentsOf x = d.templateContentsOf x := by
   unfold Dom.templateContentsOf Dom.dataOf; rw [h]
@@ -123,7 +124,8 @@ theorem apfiRest_sem {s s' : State} {target : Id} {ip : InsertionPoint} (e : apf
     QS s s' ∧ ARes s target ip := by
   unfold apfiRest at e
   rw [getS_bind] at e
-  have key : ∀ (foster : Bool) (s2 : State), QS s s2 → (foster = true → s.fosterParenting = true) →
+  have key : ∀ (foster : Bool) (s2 : State), QS s s2 →
+      (foster = true → s.fosterParenting = true ∧ fosterTarget (nm s.dom target) = true) →
       (if (!foster) = true then do
           let __do_lift ← htmlElemNamed target "template"
           if __do_lift = true then do
@@ -145,8 +147,13 @@ theorem apfiRest_sem {s s' : State} {target : Id} {ip : InsertionPoint} (e : apf
         obtain ⟨rfl, rfl⟩ := pure_ok.mp e8
         obtain ⟨htc, _⟩ := sinkNode_tc e7
         have q4 : QS s3 s4 := IsQ.q _ _ _ e7
-        refine ⟨(q2.trans q3).trans q4, .tmpl tc ?_⟩
-        rw [← tc_of_nodes (q2.trans q3).nodes]; exact htc
+        refine ⟨(q2.trans q3).trans q4, .tmpl tc ?_ ?_⟩
+        · rw [← tc_of_nodes (q2.trans q3).nodes]; exact htc
+        · obtain ⟨_, hb5, _⟩ := htmlElemNamed_sem e5
+          rw [hb5, q2.nm] at hb
+          simp only [Bool.and_eq_true, beq_iff_eq] at hb
+          have : nm s.dom target = ⟨(nm s.dom target).ns, (nm s.dom target).loc⟩ := rfl
+          rw [this, hb.1, hb.2]; rfl
       · simp only [hb] at e6
         obtain ⟨rfl, rfl⟩ := pure_ok.mp e6
         exact ⟨q2.trans q3, .plain⟩
@@ -154,14 +161,14 @@ theorem apfiRest_sem {s s' : State} {target : Id} {ip : InsertionPoint} (e : apf
       simp only [Bool.not_true, Bool.false_eq_true, if_false] at e4
       rw [getS_bind] at e4
       obtain ⟨q3, hres⟩ := fosterLoop_sem _ _ _ _ e4
-      refine ⟨q2.trans q3, .foster ip (hfo rfl) ?_⟩
+      refine ⟨q2.trans q3, .foster ip (hfo rfl).1 (hfo rfl).2 ?_⟩
       have := hres.qs q2
       rw [q2.openElems] at this
       exact this
   by_cases hf : s.fosterParenting = true
   · simp only [hf, if_true] at e
     obtain ⟨foster, s2, e3, e4⟩ := bind_ok.mp e
-    exact key foster s2 (IsQ.q _ _ _ e3) (fun _ => hf) e4
+    exact key foster s2 (IsQ.q _ _ _ e3) (fun hft => ⟨hf, by rw [← (elemIn_sem e3).2]; exact hft⟩) e4
   · simp only [hf] at e
     obtain ⟨foster, s2, e3, e4⟩ := bind_ok.mp e
     obtain ⟨rfl, rfl⟩ := pure_ok.mp e3
@@ -257,14 +264,61 @@ theorem Big.anchor_name {m : Mode} {r : Id} {ph : Phase} {s : State} {up : List 
     exact ⟨hh, t :: u, h1, by rw [e3]; decide⟩
   · exact ⟨t, u, h1, by rw [h2]; decide⟩
 
+/-- the predecessor of a non-first element of a list -/
+theorem pred_of_mem {l : List Id} {t : Id} (ht : t ∈ l) (hh : l.head? ≠ some t) :
+    ∃ pre p post, l = pre ++ p :: t :: post := by
+  obtain ⟨a, b, hab⟩ := List.append_of_mem ht
+  rcases nil_or_concat a with rfl | ⟨a0, p, rfl⟩
+  · rw [hab] at hh; simp at hh
+  · exact ⟨a0, p, b, by rw [hab]; simp⟩
+
+/-- a foster-parenting target on a stack with the table grammar has a `table` or `template` on the stack -/
+theorem tg_foster_witness {name : Id → EName} {l : List Id} {t : Id} (htg : TG name l) (hne : l ≠ [])
+    (hhead : ∀ h, l.head? = some h → name h = hN "html") (ht : t ∈ l) (hf : fosterTarget (name t) = true) :
+    ∃ x ∈ l, htmlIn (name x) ["table", "template"] = true := by
+  have hnh : ∀ y, y ∈ l → name y ≠ hN "html" → l.head? ≠ some y := by
+    intro y _ hy hh; exact hy (hhead y hh)
+  obtain ⟨a, ha, hn⟩ := htmlIn_eq hf
+  simp only [List.mem_cons, List.not_mem_nil, or_false] at ha
+  -- the predecessor of a section element
+  have sect : ∀ y, y ∈ l → htmlIn (name y) ["tbody", "tfoot", "thead"] = true →
+      ∃ x ∈ l, htmlIn (name x) ["table", "template"] = true := by
+    intro y hy hys
+    obtain ⟨b, hb, hbn⟩ := htmlIn_eq hys
+    obtain ⟨pre, p, post, hl⟩ := pred_of_mem hy (hnh y hy (by
+      rw [hbn]; simp only [List.mem_cons, List.not_mem_nil, or_false] at hb
+      rcases hb with rfl | rfl | rfl <;> decide))
+    have hp := htg pre p y post hl
+    refine ⟨p, by rw [hl]; simp, ?_⟩
+    rw [hbn] at hp
+    simp only [List.mem_cons, List.not_mem_nil, or_false] at hb
+    rcases hb with rfl | rfl | rfl <;> exact hp
+  rcases ha with rfl | rfl | rfl | rfl | rfl
+  · exact ⟨t, ht, by rw [hn]; decide⟩
+  · exact sect t ht (by rw [hn]; decide)
+  · exact sect t ht (by rw [hn]; decide)
+  · exact sect t ht (by rw [hn]; decide)
+  · obtain ⟨pre, p, post, hl⟩ := pred_of_mem ht (hnh t ht (by rw [hn]; decide))
+    have hp := htg pre p t post hl
+    rw [hn] at hp
+    have hp' : htmlIn (name p) ["tbody", "thead", "tfoot", "template"] = true := hp
+    have hpm : p ∈ l := by rw [hl]; simp
+    obtain ⟨b, hb, hbn⟩ := htmlIn_eq hp'
+    simp only [List.mem_cons, List.not_mem_nil, or_false] at hb
+    rcases hb with rfl | rfl | rfl | rfl
+    · exact sect p hpm (by rw [hbn]; decide)
+    · exact sect p hpm (by rw [hbn]; decide)
+    · exact sect p hpm (by rw [hbn]; decide)
+    · exact ⟨p, hpm, by rw [hbn]; decide⟩
+
 /-- in the body-like modes the appropriate place for insertion is never below (or next to a child of) the root -/
 theorem Big.ipR {m : Mode} {r : Id} {ph : Phase} {s : State} {t : Id} {ip : InsertionPoint} (h : Big m r ph s)
     (ht : t ∈ s.openElems ∧ t ≠ r) (ha : ARes s t ip) : IpR r s.dom ip := by
   obtain ⟨up, hc, hbb, _, hfp⟩ := h
   cases ha with
   | plain => exact ht.2
-  | tmpl tc htc => exact hc.tc_ne_root htc
-  | foster ip' hflag hres =>
+  | tmpl tc htc _ => exact hc.tc_ne_root htc
+  | foster ip' hflag htgt hres =>
     cases hres with
     | tmpl t' tc _ htc => exact hc.tc_ne_root htc
     | table pre post e p hl hn =>
@@ -294,8 +348,10 @@ theorem Big.ipR {m : Mode} {r : Id} {ph : Phase} {s : State} {t : Id} {ip : Inse
       revert han; decide
     | bottom hh _ hall =>
       exfalso
-      obtain ⟨x, hx, hxn⟩ := hfp hflag
-      have := hall x (by rw [hc.stack]; simp [hx])
+      -- the target is one of table/tbody/tfoot/thead/tr: the table grammar puts a table or template below it
+      obtain ⟨x, hx, hxn⟩ := tg_foster_witness hc.tg (by rw [hc.stack]; simp) (by rw [hc.stack]; simp [hc.root_name])
+        ht.1 htgt
+      have := hall x (List.mem_reverse.mpr hx)
       rw [hxn] at this; cases this
 
 /-- `insert_element`, decomposed: place, (queries), create, (query), insert, push -/
@@ -441,5 +497,375 @@ theorem insertAt_rs {s s' : State} {r : Id} {ip : InsertionPoint} {child : NodeO
     cases child with
     | node c => exact rs_abopn (ch := .node c) hb hu hip.1 hip.2 hch.1 (fun c' hc' => by cases hc'; exact hch.2 p (Or.inr rfl)) ha
     | text t => exact rs_abopn (ch := .text t) hb hu hip.1 hip.2 trivial (fun c' hc' => by cases hc') ha
+
+theorem constrained_of_keepName_false {n : EName} (h : keepName n = false) : constrained n = false := by
+  cases hc : constrained n with
+  | false => rfl
+  | true => rw [keepName_constrained hc] at h; cases h
+
+theorem not_in_of_keepName_false {n : EName} {l : List String} (h : keepName n = false)
+    (hl : ∀ a ∈ l, keepName (hN a) = true) : htmlIn n l = false := by
+  cases hc : htmlIn n l with
+  | false => rfl
+  | true => rw [keepName_of_htmlIn hc hl] at h; cases h
+
+/-- may an element named `n` be pushed on top of the stack `l`: the table grammar allows it, and it
+is none of `html body head frameset` -/
+def PushOk (s : State) (n : EName) : Prop :=
+  (∀ t, s.openElems.getLast? = some t → predOk n (nm s.dom t) = true) ∧
+    htmlIn n ["html", "body", "head", "frameset"] = false ∧
+    (n = hN "template" → tcount s.dom s.openElems + 1 ≤ s.templateModes.length)
+
+theorem PushOk.of_plain {s : State} {n : EName} (hk : keepName n = false) : PushOk s n :=
+  ⟨fun t _ => predOk_of_not_constrained (constrained_of_keepName_false hk), not_in_of_keepName_false hk (by decide),
+   fun h => by rw [h, keepName_template] at hk; cases hk⟩
+
+/-- pushing a fresh, loose element -/
+theorem Core.pushG {s : State} {r : Id} {up : List Id} {ph : Phase} (h : Core s r up ph) {x : Id}
+    (hx : Loose s.dom x) (hfresh : x ∉ s.openElems) (hk : PushOk s (nm s.dom x)) :
+    Core { s with openElems := s.openElems ++ [x] } r (up ++ [x]) ph := by
+  refine ⟨h.late.push hx, by show s.openElems ++ [x] = _; rw [h.stack]; rfl, h.rdoc, ?_, ?_, h.afn, ?_, h.tmm, h.form,
+    h.rtu, h.rnd, h.kids, h.elems, ?_⟩
+  · show (s.openElems ++ [x]).Nodup
+    rw [List.nodup_append]
+    exact ⟨h.nodup, by simp, by intro a ha b hb; simp at hb; subst hb; rintro rfl; exact hfresh ha⟩
+  · show TG (nm s.dom) (s.openElems ++ [x])
+    exact h.tg.snoc hk.1
+  · show tcount s.dom (s.openElems ++ [x]) ≤ _
+    unfold tcount
+    rw [List.countP_append]
+    cases hcn : (nm s.dom x == hN "template") with
+    | false =>
+      have : List.countP (fun x => nm s.dom x == hN "template") [x] = 0 := by simp [hcn]
+      rw [this]; exact h.tc
+    | true =>
+      have : List.countP (fun x => nm s.dom x == hN "template") [x] = 1 := by simp [hcn]
+      rw [this]
+      exact hk.2.2 (beq_iff_eq.mp hcn)
+  · intro y hy
+    cases hup : up with
+    | nil => rw [hup] at hy; simp at hy
+    | cons a t =>
+      rw [hup] at hy
+      simp only [List.cons_append, List.tail_cons, List.mem_append, List.mem_singleton] at hy
+      rcases hy with hy | rfl
+      · exact h.bh y (by rw [hup]; exact hy)
+      · exact hk.2.1
+
+theorem Core.push {s : State} {r : Id} {up : List Id} {ph : Phase} (h : Core s r up ph) {x : Id}
+    (hx : Loose s.dom x) (hfresh : x ∉ s.openElems) (hk : keepName (nm s.dom x) = false) :
+    Core { s with openElems := s.openElems ++ [x] } r (up ++ [x]) ph :=
+  h.pushG hx hfresh (PushOk.of_plain hk)
+
+theorem BodyBase.snoc {d : Dom} {head : Option Id} {up : List Id} {ph : Phase} (h : BodyBase d head up ph) {x : Id}
+    (hx : ∀ hh, head = some hh → x ≠ hh) : BodyBase d head (up ++ [x]) ph := by
+  rcases h with ⟨b, u, h1, h2, h3⟩ | ⟨hh, t, u, h0, h1, h2, h3⟩ | ⟨t, u, h1, h2, h3, h4⟩
+  · refine Or.inl ⟨b, u ++ [x], by rw [h1]; rfl, h2, fun y hy hm => ?_⟩
+    rcases List.mem_append.mp hm with hm | hm
+    · exact h3 y hy hm
+    · simp at hm; exact hx y hy hm.symm
+  · exact Or.inr (Or.inl ⟨hh, t, u ++ [x], h0, by rw [h1]; rfl, h2, h3⟩)
+  · refine Or.inr (Or.inr ⟨t, u ++ [x], by rw [h1]; rfl, h2, h3, fun y hy hm => ?_⟩)
+    rcases List.mem_append.mp hm with hm | hm
+    · exact h4 y hy hm
+    · simp at hm; exact hx y hy hm.symm
+
+theorem Need.mono {d : Dom} {m : Mode} {up up' : List Id} (h : Need d m up) (hs : ∀ x ∈ up, x ∈ up') : Need d m up' := by
+  cases m <;> try exact h
+  all_goals
+    obtain ⟨x, hx, hh⟩ := h
+    exact ⟨x, hs x hx, hh⟩
+
+/-- the arena changed without touching the root, the stack is unchanged -/
+theorem Big.dom {m : Mode} {r : Id} {ph : Phase} {s s' : State} (h : Big m r ph s) (hl : Late s')
+    (hdo : DomOnly s s') (hc : Chg s.dom s'.dom) (hrs : RS r s.dom s'.dom)
+    (hk0 : s'.dom.childrenOf 0 = s.dom.childrenOf 0) : Big m r ph s' := by
+  obtain ⟨up, hcore, hbb, hneed, hfp⟩ := h
+  have hr := hdo
+  have hcore' : Core s' r up ph := hcore.transfer hl hc hrs (by rw [hk0]; exact hcore.rdoc)
+    (by rw [hr]) (by rw [hr]) (by rw [hr]) (by rw [hr]) (by rw [hr])
+  have hsn := hcore.sameNames hc
+  have hhead : s'.headElem = s.headElem := by rw [hr]
+  have hfl : s'.fosterParenting = s.fosterParenting := by rw [hr]
+  refine ⟨up, hcore', by rw [hhead]; exact hbb.congr hsn, hneed.congr hsn, ?_⟩
+  intro hf
+  rw [hfl] at hf
+  obtain ⟨x, hx, hh⟩ := hfp hf
+  exact ⟨x, hx, by rw [hsn x hx]; exact hh⟩
+
+theorem Big.current {m : Mode} {r : Id} {ph : Phase} {s : State} (h : Big m r ph s) {t : Id}
+    (hl : s.openElems.getLast? = some t) : t ∈ s.openElems ∧ t ≠ r := by
+  obtain ⟨up, hc, hbb, _, _⟩ := h
+  refine ⟨mem_of_getLast?' hl, ?_⟩
+  have hne := hbb.ne_nil
+  rw [hc.stack] at hl
+  have : t ∈ up := by
+    rcases nil_or_concat up with rfl | ⟨u0, z, rfl⟩
+    · exact absurd rfl hne
+    · have : (r :: (u0 ++ [z])).getLast? = some z := by
+        rw [show r :: (u0 ++ [z]) = (r :: u0) ++ [z] from rfl, List.getLast?_append]
+        simp
+      rw [this] at hl; cases hl; simp
+  exact hc.up_ne_root this
+
+theorem Big.rtu {m : Mode} {r : Id} {ph : Phase} {s : State} (h : Big m r ph s) : RTU r s.dom := by
+  obtain ⟨_, hc, _⟩ := h; exact hc.rtu
+
+theorem Big.late {m : Mode} {r : Id} {ph : Phase} {s : State} (h : Big m r ph s) : Late s := by
+  obtain ⟨_, hc, _⟩ := h; exact hc.late
+
+theorem IpR.rs {r : Id} {d d' : Dom} {ip : InsertionPoint} (h : IpR r d ip) (hrs : RS r d d') : IpR r d' ip := by
+  cases ip with
+  | lastChild p => exact h
+  | beforeSibling _ => exact h
+  | tableFosterParenting e p => exact ⟨by rw [hrs.kids]; exact h.1, h.2⟩
+
+theorem IpOk.nodes_lt {d : Dom} {ip : InsertionPoint} (h : IpOk d ip) :
+    ∀ p, ip.nodes.1 = p ∨ ip.nodes.2 = some p → p < d.size := by
+  cases ip with
+  | lastChild q =>
+    intro p hp
+    simp only [InsertionPoint.nodes] at hp
+    rcases hp with rfl | hp
+    · exact lt_of_isContainer h.2
+    · cases hp
+  | beforeSibling _ => exact absurd h id
+  | tableFosterParenting e q =>
+    intro p hp
+    simp only [InsertionPoint.nodes, Option.some.injEq] at hp
+    rcases hp with rfl | rfl
+    · exact lt_of_isElement h.1
+    · exact lt_of_isElement h.2.2
+
+/-- `insert_element` with a disposable name, in a body-like mode -/
+theorem insertElement_gen {m : Mode} {r : Id} {ph : Phase} {s s' : State} {pushIt : Bool} {ns name : Str}
+    {attrs : List Attr} {dup : Bool} {el : Id} (h : Big m r ph s)
+    (hk : pushIt = true → PushOk s ⟨ns, name⟩)
+    (e : insertElement pushIt ns name attrs dup s = .ok (el, s')) :
+    Big m r ph s' ∧ s'.mode = s.mode ∧ s'.origMode = s.origMode ∧ nm s'.dom el = ⟨ns, name⟩ ∧
+      s'.dom.isElement el = true ∧ s.dom.size ≤ el ∧
+      s'.openElems = (if pushIt then s.openElems ++ [el] else s.openElems) ∧
+      s'.activeFormatting = s.activeFormatting ∧ s'.formElem = s.formElem := by
+  obtain ⟨ip, s1, s2, s3, s4, s5, e1, q12, e3, q34, e5, hs'⟩ := insertElement_run e
+  -- the place
+  obtain ⟨q1, t, ht, hares⟩ := apfi_sem e1
+  obtain ⟨_, _, hipok1⟩ := apfi_spec h.late e1
+  simp only at ht
+  have hipr : IpR r s.dom ip := h.ipR (h.current ht) hares
+  have hb1 : Big m r ph s2 := (h.qs q1).qs q12
+  have q02 : QS s s2 := q1.trans q12
+  have hipr2 : IpR r s2.dom ip := hipr.rs (RS.of_nodes q02.nodes)
+  have hipok2 : IpOk s2.dom ip := hipok1.ext (SameSk.of_nodes q12.nodes).ext
+  -- the new element
+  obtain ⟨up, hc2, hbb2, hneed2, hfp2⟩ := hb1
+  obtain ⟨hc3, hdo3, hchg3, hfresh3, hel3, hnm3, hnol3⟩ := createElement_core hc2 e3
+  have hb3 : Big m r ph s3 := by
+    have hsn := hc2.sameNames hchg3
+    have hr := hdo3
+    refine ⟨up, hc3, ?_, hneed2.congr hsn, ?_⟩
+    · have : s3.headElem = s2.headElem := by rw [hr]
+      rw [this]; exact hbb2.congr hsn
+    · intro hf
+      have : s3.fosterParenting = s2.fosterParenting := by rw [hr]
+      rw [this] at hf
+      obtain ⟨x, hx, hh⟩ := hfp2 hf
+      exact ⟨x, hx, by rw [hsn x hx]; exact hh⟩
+  have hb4 : Big m r ph s4 := hb3.qs q34
+  have hrs23 : RS r s2.dom s3.dom := by
+    unfold createElementWithFlags at e3
+    obtain ⟨hd1, _⟩ := sink_dom (sinkNode_ok.mp e3)
+    obtain ⟨hdom1, _⟩ := apply_createElement hd1
+    rw [hdom1]
+    exact rs_createElement r hc2.late.base _ _ _
+  have hrs24 : RS r s2.dom s4.dom := hrs23.trans (RS.of_nodes q34.nodes)
+  have hext24 : Ext s2.dom s4.dom := by
+    obtain ⟨_, x, _⟩ := createElementWithFlags_spec hc2.late e3
+    exact x.trans (SameSk.of_nodes q34.nodes).ext
+  have hipr4 : IpR r s4.dom ip := hipr2.rs hrs24
+  have hipok4 : IpOk s4.dom ip := hipok2.ext hext24
+  have hnol4 : ∀ q, el ∉ s4.dom.childrenOf q := fun q => by rw [childrenOf_of_nodes q34.nodes]; exact hnol3 q
+  have hel4 : s4.dom.isElement el = true := by rw [isElement_of_nodes q34.nodes]; exact hel3
+  have hloose4 : Loose s4.dom el := ⟨hel4, hnol4 0⟩
+  -- the insertion
+  obtain ⟨hl5, hext5, hk05, hdo5⟩ := insertAt_spec (child := .node el) hb4.late hipok4 hloose4.childOk e5
+  have hrs45 : RS r s4.dom s5.dom := by
+    refine insertAt_rs (child := .node el) hb4.late.base hb4.rtu hipr4 ⟨hnol4 r, ?_⟩ e5
+    intro p hp
+    have := hipok2.nodes_lt p hp
+    exact Nat.ne_of_lt (Nat.lt_of_lt_of_le this hfresh3)
+  have hb5 : Big m r ph s5 := hb4.dom hl5 hdo5 hext5.chg hrs45 hk05
+  have hnm5 : nm s5.dom el = ⟨ns, name⟩ := by
+    rw [nm_chg hext5.chg hel4, nm_of_nodes q34.nodes]; exact hnm3
+  have hel5 : s5.dom.isElement el = true := hext5.chg.isElement hel4
+  have hst5 : s5.openElems = s.openElems := by
+    rw [hdo5]; show s4.openElems = _; rw [q34.openElems, hdo3]; show s2.openElems = _; exact q02.openElems
+  have hsz : s.dom.size ≤ el := by
+    have : s2.dom.size = s.dom.size := by simp [Dom.size, q02.nodes]
+    rw [← this]; exact hfresh3
+  have hmode5 : s5.mode = s.mode ∧ s5.origMode = s.origMode ∧ s5.activeFormatting = s.activeFormatting ∧
+      s5.formElem = s.formElem := by
+    have h5 := hdo5; have h3 := hdo3; have h34 := q34.rest; have h02 := q02.rest
+    refine ⟨?_, ?_, ?_, ?_⟩ <;> (rw [h5, h34, h3, h02])
+  by_cases hp : pushIt = true
+  · simp only [hp, if_true] at hs' ⊢
+    subst hs'
+    obtain ⟨up5, hc5, hbb5, hneed5, hfp5⟩ := hb5
+    have hfr : el ∉ s5.openElems := by
+      rw [hst5]
+      intro hm
+      exact Nat.lt_irrefl _ (Nat.lt_of_lt_of_le (lt_of_isElement (h.late.st.oe el hm)) hsz)
+    have hloose5 : Loose s5.dom el := ⟨hel5, by rw [hk05]; exact hnol4 0⟩
+    have hchg05 : Chg s.dom s5.dom :=
+      ((SameSk.of_nodes q02.nodes).chg.trans hchg3).trans ((SameSk.of_nodes q34.nodes).chg.trans hext5.chg)
+    have hpk : PushOk s5 (nm s5.dom el) := by
+      obtain ⟨hk1, hk2, hk3⟩ := hk hp
+      rw [hnm5]
+      refine ⟨fun t ht => ?_, hk2, fun hn => ?_⟩
+      · rw [hst5] at ht
+        rw [nm_chg hchg05 (h.late.st.oe t (mem_of_getLast?' ht))]
+        exact hk1 t ht
+      · have htm5 : s5.templateModes = s.templateModes := by
+          have h5 := hdo5; have h3 := hdo3; have h34 := q34.rest; have h02 := q02.rest
+          rw [h5, h34, h3, h02]
+        rw [hst5, htm5, tcount_congr (SameNames.of_chg hchg05 h.late.st.oe)]
+        exact hk3 hn
+    have hcp := hc5.pushG hloose5 hfr hpk
+    refine ⟨⟨up5 ++ [el], hcp, ?_, hneed5.mono (fun x hx => List.mem_append_left _ hx), ?_⟩, hmode5.1, hmode5.2.1,
+      hnm5, hel5, hsz, by show s5.openElems ++ [el] = _; rw [hst5], hmode5.2.2.1, hmode5.2.2.2⟩
+    · refine hbb5.snoc (fun hh hhe => ?_)
+      rintro rfl
+      -- the head pointer is an old element
+      have : s5.headElem = s.headElem := by
+        have h5 := hdo5; have h3 := hdo3; have h34 := q34.rest; have h02 := q02.rest
+        rw [h5, h34, h3, h02]
+      have hhe' : s.headElem = some el := by rw [← this]; exact hhe
+      exact Nat.lt_irrefl _ (Nat.lt_of_lt_of_le (lt_of_isElement (h.late.st.head el hhe').1) hsz)
+    · intro hf
+      obtain ⟨x, hx, hh⟩ := hfp5 hf
+      exact ⟨x, List.mem_append_left _ hx, hh⟩
+  · simp only [hp] at hs' ⊢
+    subst hs'
+    exact ⟨hb5, hmode5.1, hmode5.2.1, hnm5, hel5, hsz, hst5, hmode5.2.2.1, hmode5.2.2.2⟩
+
+/-- `insert_element` with a disposable name, in a body-like mode -/
+theorem insertElement_big {m : Mode} {r : Id} {ph : Phase} {s s' : State} {pushIt : Bool} {ns name : Str}
+    {attrs : List Attr} {dup : Bool} {el : Id} (h : Big m r ph s) (hk : keepName ⟨ns, name⟩ = false)
+    (e : insertElement pushIt ns name attrs dup s = .ok (el, s')) :
+    Big m r ph s' ∧ s'.mode = s.mode ∧ s'.origMode = s.origMode ∧ nm s'.dom el = ⟨ns, name⟩ ∧
+      s'.dom.isElement el = true ∧ s.dom.size ≤ el ∧
+      s'.openElems = (if pushIt then s.openElems ++ [el] else s.openElems) ∧
+      s'.activeFormatting = s.activeFormatting ∧ s'.formElem = s.formElem :=
+  insertElement_gen h (fun _ => PushOk.of_plain hk) e
+
+instance (pushIt : Bool) (name : Str) (attrs : List Attr) (dup : Bool) [hk : PlainStr name] :
+    PB (insertElement pushIt nsHtml name attrs dup) :=
+  ⟨fun m r ph s a s' hb e => by
+    obtain ⟨h1, h2, h3, _⟩ := insertElement_big hb hk.h e
+    exact ⟨h1, h2, h3⟩⟩
+
+theorem keepName_foreign {ns name : Str} (h : (ns == nsHtml) = false) : keepName ⟨ns, name⟩ = false := by
+  unfold keepName isStruct htmlIn
+  simp [h]
+
+instance (tag : Tag) [PlainStr tag.name] : PB (insertElementFor tag) := by unfold insertElementFor; infer_instance
+instance (tag : Tag) [PlainStr tag.name] : PB (insertAndPopElementFor tag) := by unfold insertAndPopElementFor; infer_instance
+instance (n : String) [PlainStr n.toList] : PB (insertPhantom n) := by unfold insertPhantom; infer_instance
+
+/-- `insert_appropriately` of text, or of a node that is in no child list yet -/
+theorem insertAppropriately_big {m : Mode} {r : Id} {ph : Phase} {s s' : State} {child : NodeOrText} {o : Option Id}
+    {u : Unit} (h : Big m r ph s) (ho : ∀ t, o = some t → t ∈ s.openElems ∧ t ≠ r)
+    (hch : match child with
+      | .node c => (∀ q, c ∉ s.dom.childrenOf q) ∧ (∀ x, x < s.dom.size → s.dom.isContainer x = true → x ≠ c) ∧
+          (s.dom.isElement c = true ∨ ∃ t, s.dom.dataOf c = some (.comment t))
+      | .text t => t ≠ [])
+    (e : insertAppropriately child o s = .ok (u, s')) :
+    Big m r ph s' ∧ DomOnly s s' ∧ Chg s.dom s'.dom := by
+  unfold insertAppropriately at e
+  obtain ⟨ip, s1, e1, e2⟩ := bind_ok.mp e
+  obtain ⟨q1, t, ht, hares⟩ := apfi_sem e1
+  obtain ⟨_, _, hipok1⟩ := apfi_spec h.late e1
+  have htr : t ∈ s.openElems ∧ t ≠ r := by
+    cases o with
+    | some t' => simp only at ht; subst ht; exact ho _ rfl
+    | none => simp only at ht; exact h.current ht
+  have hipr : IpR r s.dom ip := h.ipR htr hares
+  have hb1 : Big m r ph s1 := h.qs q1
+  have hipr1 : IpR r s1.dom ip := hipr.rs (RS.of_nodes q1.nodes)
+  have hk : ∀ x, s1.dom.childrenOf x = s.dom.childrenOf x := childrenOf_of_nodes q1.nodes
+  have hsz : s1.dom.size = s.dom.size := by simp [Dom.size, q1.nodes]
+  have hch1 : ChildOk s1.dom child := by
+    cases child with
+    | node c =>
+      obtain ⟨h1, _, h3⟩ := hch
+      refine ⟨by rw [hk]; exact h1 0, ?_⟩
+      have hd : s1.dom.dataOf c = s.dom.dataOf c := by unfold Dom.dataOf; rw [q1.nodes]
+      rw [hd]
+      rcases h3 with h3 | ⟨t', h3⟩
+      · exact not_doc_of_isElement h3
+      · rw [h3]; simp
+    | text t' => exact hch
+  obtain ⟨hl2, hext2, hk02, hdo2⟩ := insertAt_spec hb1.late hipok1 hch1 e2
+  have hrs : RS r s1.dom s'.dom := by
+    refine insertAt_rs hb1.late.base hb1.rtu hipr1 ?_ e2
+    cases child with
+    | node c =>
+      obtain ⟨h1, h2, _⟩ := hch
+      refine ⟨by rw [hk]; exact h1 r, fun p hp => ?_⟩
+      have hlt := hipok1.nodes_lt p hp
+      rw [hsz] at hlt
+      refine h2 p hlt ?_
+      -- the parent candidates are containers
+      cases ip with
+      | lastChild q =>
+        simp only [InsertionPoint.nodes] at hp
+        rcases hp with rfl | hp
+        · have := hipok1.2; unfold Dom.isContainer Dom.dataOf at this ⊢; rw [← q1.nodes]; exact this
+        · cases hp
+      | beforeSibling _ => exact absurd hipok1 id
+      | tableFosterParenting e' q =>
+        simp only [InsertionPoint.nodes, Option.some.injEq] at hp
+        have he := hipok1.1; have hq := hipok1.2.2
+        rw [isElement_of_nodes q1.nodes] at he hq
+        rcases hp with rfl | rfl
+        · exact isContainer_of_isElement he
+        · exact isContainer_of_isElement hq
+    | text t' => trivial
+  have hb' : Big m r ph s' := hb1.dom hl2 hdo2 hext2.chg hrs hk02
+  refine ⟨hb', ?_, (SameSk.of_nodes q1.nodes).chg.trans hext2.chg⟩
+  have h1 := q1.rest
+  show s' = { s with dom := s'.dom, traceRev := s'.traceRev }
+  rw [hdo2, h1]
+
+instance (text : Str) [hne : NE text] : PB (appendText text) :=
+  ⟨fun m r ph s a s' hb e => by
+    unfold appendText at e
+    obtain ⟨u, s1, e1, e2⟩ := bind_ok.mp e
+    obtain ⟨_, rfl⟩ := pure_ok.mp e2
+    obtain ⟨h1, hdo, _⟩ := insertAppropriately_big (child := .text text) hb (by intro t ht; cases ht) hne.h e1
+    exact ⟨h1, by rw [hdo], by rw [hdo]⟩⟩
+
+instance (text : Str) : PB (appendComment text) :=
+  ⟨fun m r ph s a s' hb e => by
+    unfold appendComment at e
+    obtain ⟨c, s1, e1, e2⟩ := bind_ok.mp e
+    obtain ⟨u, s2, e3, e4⟩ := bind_ok.mp e2
+    obtain ⟨_, rfl⟩ := pure_ok.mp e4
+    obtain ⟨hl1, hext1, hc1, hcd1, hfresh1, hdo1⟩ := createComment_run hb.late e1
+    -- the comment node is fresh
+    have hd1 : s.dom.apply (.createComment text) = .ok (s1.dom, .node c) := (sink_dom (sinkNode_ok.mp e1)).1
+    obtain ⟨hdom1, hout⟩ := apply_createComment hd1
+    obtain ⟨_, _, hk1, hid, hs1, _⟩ := createComment_spec hb.late.base text
+    rw [← hdom1] at hk1 hs1
+    have hrs1 : RS r s.dom s1.dom := by rw [hdom1]; exact rs_alloc r hb.late.base _
+    have hb1 : Big m r ph s1 := hb.dom hl1 hdo1 hext1.chg hrs1 (hk1 0)
+    have hnol : ∀ q, c ∉ s1.dom.childrenOf q := fun q hq => by
+      rw [hk1] at hq
+      exact Nat.lt_irrefl _ (Nat.lt_of_lt_of_le (hb.late.base.kidsValid q _ hq) hfresh1)
+    have hncont : ∀ x, x < s1.dom.size → s1.dom.isContainer x = true → x ≠ c := fun x _ hcx hxc => by
+      subst hxc
+      unfold Dom.isContainer at hcx; rw [hcd1] at hcx; cases hcx
+    obtain ⟨h2, hdo2, _⟩ := insertAppropriately_big (child := .node c) hb1 (by intro t ht; cases ht)
+      ⟨hnol, hncont, Or.inr ⟨text, hcd1⟩⟩ e3
+    exact ⟨h2, by rw [hdo2, hdo1], by rw [hdo2, hdo1]⟩⟩
 
 end H5V.Props.C06
